@@ -57,8 +57,8 @@ def run_workers(prop, tier, vseed, n, W, cap, scratch, hashseed='0', indices=Non
     return procs
 
 
-def collect(procs, deadline):
-    recs = []
+def collect(procs, deadline, on_rec):
+    """Wait for the workers and stream their records into on_rec (nothing is kept in memory here)."""
     errors = []
     truncated = False
     for p, out, log in procs:
@@ -81,7 +81,7 @@ def collect(procs, deadline):
                 elif 'truncated_at' in r:
                     truncated = True
                 elif 'i' in r:
-                    recs.append(r)
+                    on_rec(r)
         if rc != 0 or not done:
             tail = ''
             try:
@@ -89,8 +89,61 @@ def collect(procs, deadline):
             except Exception:
                 pass
             errors.append('worker %s exit=%s done=%s log tail: %s' % (os.path.basename(out), rc, done, tail))
-    recs.sort(key=lambda r: r['i'])
-    return recs, errors, truncated
+    return errors, truncated
+
+
+class Agg:
+    """Streaming aggregation of run records (a thorough tier has millions of them)."""
+
+    def __init__(self, ndet, n):
+        self.ndet = ndet
+        self.evaluations = 0
+        self.cases = set()
+        self.digests = set()
+        self.faults = collections.OrderedDict()
+        self.probes = collections.Counter()
+        self.sim_time = 0.0
+        self.inconclusive = 0
+        self.degraded = collections.Counter()
+        self.extras = collections.Counter()
+        self.kernel_seqs = set()
+        self.viols = []
+        self.first_digest = {}
+        self.errors = []
+        self.samples = {}
+        self.sample_idx = set([0, 1, n // 2, n // 2 + 1, n - 1])
+
+    def add(self, r):
+        self.evaluations += 1
+        if r.get('harness_error'):
+            if len(self.errors) < 20:
+                self.errors.append('run %d (seed %d): %s\n%s' % (r['i'], r['seed'], r['harness_error'], r.get('traceback', '')[-800:]))
+            return
+        if r['i'] < self.ndet:
+            self.first_digest[r['i']] = (r.get('digest'), bool(r.get('violation')))
+        if r['i'] in self.sample_idx:
+            self.samples[r['i']] = {'i': r['i'], 'seed': r['seed'], 'case': r.get('summary')}
+        if r.get('nontrivial') and 'case' in r:
+            self.cases.add(r['case'])
+        for k, v in (r.get('faults') or {}).items():
+            c = self.faults.setdefault(k, [0, 0])
+            c[0] += v[0]
+            c[1] += v[1]
+        self.probes.update(r.get('probes') or {})
+        self.sim_time += r.get('sim_time') or 0
+        self.inconclusive += int(bool(r.get('inconclusive')))
+        if r.get('degraded'):
+            self.degraded[r['degraded']] += 1
+        if r.get('kernel_seq'):
+            self.kernel_seqs.add(r['kernel_seq'])
+        for q in r.get('kernel_seqs') or []:
+            self.kernel_seqs.add(q)
+        if 'digest' in r:
+            self.digests.add(r['digest'])
+        for k, v in (r.get('counts') or {}).items():
+            self.extras[k] += v
+        if r.get('violation'):
+            self.viols.append(r)
 
 
 def main(argv=None):
@@ -124,56 +177,24 @@ def main(argv=None):
     ndet = min(3, n)
     det = run_workers(prop, tier, vseed, n, 1, cap, scratch, hashseed='4242', indices=list(range(ndet)), tag='det')
     deadline = time.time() + cap + 300
-    recs, errors, truncated = collect(procs, deadline)
-    drecs, derrors, _ = collect(det, deadline)
-    errors += derrors
+    agg = Agg(ndet, n)
+    errors, truncated = collect(procs, deadline, agg.add)
+    drecs = []
+    derrors, _ = collect(det, deadline, drecs.append)
+    errors += derrors + agg.errors
     # determinism self-check: same seeds in another fresh interpreter under another hash seed
-    by_i = {r['i']: r for r in recs}
     det_checked = 0
     for d in drecs:
-        m = by_i.get(d['i'])
-        if m is None or 'digest' not in m or 'digest' not in d:
+        m = agg.first_digest.get(d['i'])
+        if m is None or m[0] is None or 'digest' not in d:
             continue
         det_checked += 1
-        if m['digest'] != d['digest'] or bool(m.get('violation')) != bool(d.get('violation')):
-            errors.append('nondeterminism: run %d digest %s vs %s in a second interpreter' % (d['i'], m['digest'], d['digest']))
-    for r in recs:
-        if r.get('harness_error'):
-            errors.append('run %d (seed %d): %s\n%s' % (r['i'], r['seed'], r['harness_error'], r.get('traceback', '')[-800:]))
-    # ---- aggregate
-    evaluations = len(recs)
-    cases = set()
-    faults = collections.OrderedDict()
-    probes = collections.Counter()
-    sim_time = 0.0
-    inconclusive = 0
-    degraded = collections.Counter()
-    extras = collections.Counter()
-    kernel_seqs = set()
-    digests = set()
-    viols = []
-    for r in recs:
-        if r.get('nontrivial') and 'case' in r:
-            cases.add(r['case'])
-        for k, v in (r.get('faults') or {}).items():
-            c = faults.setdefault(k, [0, 0])
-            c[0] += v[0]
-            c[1] += v[1]
-        probes.update(r.get('probes') or {})
-        sim_time += r.get('sim_time') or 0
-        inconclusive += int(bool(r.get('inconclusive')))
-        if r.get('degraded'):
-            degraded[r['degraded']] += 1
-        if r.get('kernel_seq'):
-            kernel_seqs.add(r['kernel_seq'])
-        for s in r.get('kernel_seqs') or []:
-            kernel_seqs.add(s)
-        if 'digest' in r:
-            digests.add(r['digest'])
-        for k, v in (r.get('counts') or {}).items():
-            extras[k] += v
-        if r.get('violation'):
-            viols.append(r)
+        if m[0] != d['digest'] or m[1] != bool(d.get('violation')):
+            errors.append('nondeterminism: run %d digest %s vs %s in a second interpreter' % (d['i'], m[0], d['digest']))
+    evaluations = agg.evaluations
+    cases, faults, probes, sim_time, inconclusive = agg.cases, agg.faults, agg.probes, agg.sim_time, agg.inconclusive
+    degraded, extras, kernel_seqs, digests, viols = agg.degraded, agg.extras, agg.kernel_seqs, agg.digests, agg.viols
+    viols.sort(key=lambda r: r['i'])
     wall = time.time() - t0
     # ---- violations vs known findings
     known = [k for k in load_known() if k['property'] == prop]
@@ -232,7 +253,7 @@ def main(argv=None):
             print('violation: %s  x%d  %s' % (list(sig), len(rs), rep['detail'][:400]))
             print('VIOLATION property=%s replay=%s' % (prop, path))
     # ---- evidence
-    samples = [{'i': r['i'], 'seed': r['seed'], 'case': r.get('summary')} for r in recs[:2] + recs[len(recs) // 2:len(recs) // 2 + 2] + recs[-1:]]
+    samples = [agg.samples[i] for i in sorted(agg.samples)]
     eng = registry.engine_for(prop)
     ev = {
         'property_id': prop, 'tier': tier, 'seed': vseed, 'level': 'exploration',
